@@ -79,14 +79,22 @@ Definition conf (root aroot : ppath) (e : effect) : Prop :=
 Definition below (rp k : list (list Z)) : Prop := exists rest, k = rp ++ rest.
 (* nothing outside the root changes *)
 Definition frame (rp : list (list Z)) (fs fs' : fsys) : Prop := forall k, ~ below rp k -> lookup fs' k = lookup fs k.
-Definition Iframe (rp : list (list Z)) (s s' : state) : Prop := frame rp (st_fs s) (st_fs s').
+(* ... and every observed path (key of _observations) stays under the root *)
+Definition obs_under (root : ppath) (s : state) : Prop := Forall (fun e => under root (fst e) = true) (st_obs s).
+Definition Iframe (root : ppath) (s s' : state) : Prop :=
+  frame (parts root) (st_fs s) (st_fs s') /\ (obs_under root s -> obs_under root s').
 Lemma frame_refl rp fs : frame rp fs fs. Proof. intros k _. reflexivity. Qed.
 Lemma frame_trans rp a b c : frame rp a b -> frame rp b c -> frame rp a c.
 Proof. intros H1 H2 k Hk. rewrite (H2 k Hk). apply H1. exact Hk. Qed.
-Lemma Iframe_refl rp s : Iframe rp s s. Proof. apply frame_refl. Qed.
-Lemma Iframe_trans rp a b c : Iframe rp a b -> Iframe rp b c -> Iframe rp a c. Proof. apply frame_trans. Qed.
-Lemma Iframe_same rp s s' : st_fs s' = st_fs s -> Iframe rp s s'.
-Proof. unfold Iframe. intros ->. apply frame_refl. Qed.
+Lemma Iframe_refl root s : Iframe root s s. Proof. split; [apply frame_refl|auto]. Qed.
+Lemma Iframe_trans root a b c : Iframe root a b -> Iframe root b c -> Iframe root a c.
+Proof. intros [H1 H2] [H3 H4]. split; [eapply frame_trans; eassumption|auto]. Qed.
+Lemma Iframe_same root s s' : st_fs s' = st_fs s -> st_obs s' = st_obs s -> Iframe root s s'.
+Proof. unfold Iframe, obs_under. intros -> ->. split; [apply frame_refl|auto]. Qed.
+Lemma Iframe_fs root st fs' : frame (parts root) (st_fs st) fs' -> Iframe root st (with_fs st fs').
+Proof. intros H. split; [exact H|auto]. Qed.
+Lemma obs_mark_under root o p : Forall (fun e : ppath * bool => under root (fst e) = true) o -> Forall (fun e => under root (fst e) = true) (obs_mark o p).
+Proof. induction 1 as [|[q b] r Hq Hr IH]; cbn; [constructor|]. destruct (ppath_eqb q p); constructor; auto. Qed.
 
 Lemma In_removelast {A} (x : A) l : In x (removelast l) -> In x l.
 Proof. induction l as [|a l IH]; [auto|]. destruct l as [|b r]; [cbn; tauto|].
@@ -97,9 +105,9 @@ Proof. intros H. apply under_inv in H as [_ [rest [H _]]]. exists rest. exact H.
 
 Section Conf.
   Variable root aroot : ppath.
-  Notation T := (triple (Iframe (parts root)) (conf root aroot)).
-  Let Ir := Iframe_refl (parts root).
-  Let It := Iframe_trans (parts root).
+  Notation T := (triple (Iframe root) (conf root aroot)).
+  Let Ir := Iframe_refl root.
+  Let It := Iframe_trans root.
 
   Lemma conf_stat p : under root p = true -> T (stat p) (fun _ => True).
   Proof. intros H st. cbn. split; [apply Ir|]. split; [repeat constructor; exact H|exact I]. Qed.
@@ -125,13 +133,13 @@ Section Conf.
     - destruct (lookup (st_fs st) k).
       + split; [apply Ir|]. split; [constructor; [exact Hs|constructor]|exact I].
       + split; [|split; [constructor; [exact Hs|constructor]|exact I]].
-        intros k' Hk'. cbn. apply lookup_aset_other. intros ->. apply Hk'. apply resolve_key in Er. subst. apply under_below. exact H. Qed.
+        apply Iframe_fs. intros k' Hk'. apply lookup_aset_other. intros ->. apply Hk'. apply resolve_key in Er. subst. apply under_below. exact H. Qed.
   Lemma conf_unlink shown p : okp root aroot shown -> under root p = true -> T (unlink shown p) (fun _ => True).
   Proof. intros Hs H st. unfold unlink, fs_unlink. destruct (resolve (st_fs st) p) as [e|k] eqn:Er.
     - split; [apply Ir|]. split; [constructor; [exact Hs|constructor]|exact I].
     - destruct (lookup (st_fs st) k) as [[c|]|].
       + split; [|split; [constructor; [exact Hs|constructor]|exact I]].
-        intros k' Hk'. cbn. apply lookup_aremove_other. intros ->. apply Hk'. apply resolve_key in Er. subst. apply under_below. exact H.
+        apply Iframe_fs. intros k' Hk'. apply lookup_aremove_other. intros ->. apply Hk'. apply resolve_key in Er. subst. apply under_below. exact H.
       + split; [apply Ir|]. split; [constructor; [exact Hs|constructor]|exact I].
       + split; [apply Ir|]. split; [constructor; [exact Hs|constructor]|exact I]. Qed.
   Lemma conf_rename shown a b : okp root aroot shown -> under root a = true -> under root b = true -> T (rename shown a b) (fun _ => True).
@@ -144,7 +152,7 @@ Section Conf.
     assert (frame (parts root) (st_fs st) (aset (aremove (st_fs st) (parts a)) (parts b) na)) as Hf.
     { intros k' Hk'. rewrite lookup_aset_other, lookup_aremove_other; [reflexivity| |];
         intros Heq; apply Hk'; rewrite <- Heq; apply under_below; assumption. }
-    destruct (lookup (st_fs st) (parts b)) as [[c|]|]; (split; [first [exact Hf|apply Ir]|split; [exact Hc|exact I]]). Qed.
+    destruct (lookup (st_fs st) (parts b)) as [[c|]|]; (split; [first [apply Iframe_fs; exact Hf|apply Ir]|split; [exact Hc|exact I]]). Qed.
 
   (* paths derived from a confined path *)
   Lemma under_child p n : under root p = true -> n <> DOTDOT -> under root (child p n) = true.
@@ -201,15 +209,25 @@ Proof.
     destruct more; cbn; auto.
 Qed.
 
+Lemma feed_and_take_obs req st : st_obs (fst (fst (feed_and_take req st))) = st_obs st.
+Proof.
+  unfold feed_and_take. destruct (opt_block1 req) as [[[num more] szx]|]; [|reflexivity].
+  destruct (num =? 0).
+  - destruct more; reflexivity.
+  - destruct (spool_find (st_spool st) (block_key req)) as [acc|]; [|reflexivity].
+    destruct (more && negb _); [reflexivity|]. destruct (blk_start num szx =? blen acc); [|reflexivity].
+    destruct more; reflexivity.
+Qed.
+
 Section ServerConf.
   Variable self : fileserver.
   Hypothesis Hroot : root_ok (fs_root self).
   Hypothesis Htmp : fs_tmpname self <> DOTDOT.
   Let rootp := load_parts (fs_root self).
   Let arootp := abspath self rootp.
-  Notation T := (triple (Iframe (parts rootp)) (conf rootp arootp)).
-  Let Ir := Iframe_refl (parts rootp).
-  Let It := Iframe_trans (parts rootp).
+  Notation T := (triple (Iframe rootp) (conf rootp arootp)).
+  Let Ir := Iframe_refl rootp.
+  Let It := Iframe_trans rootp.
   Definition Qpath (req : request) (lp : ppath) : Prop :=
     under rootp lp = true /\ parts lp = parts rootp ++ filter nonempty (opt_uri_path req).
 
@@ -228,13 +246,18 @@ Section ServerConf.
     - split; [apply Ir|]. split; [constructor|]. destruct (request_to_localpath_confined _ _ _ Hroot E) as [H1 H2].
       split; [exact H2|]. rewrite H1. reflexivity.
     - split; [apply Ir|]. split; [constructor|exact I]. Qed.
-  Lemma conf_obs_register p : T (obs_register p) (fun _ => True).
-  Proof. intros st. unfold obs_register. destruct (obs_find (st_obs st) p); cbn; (split; [apply Iframe_same; reflexivity|split; [constructor|exact I]]). Qed.
+  Lemma conf_obs_register p : under rootp p = true -> T (obs_register p) (fun _ => True).
+  Proof. intros Hp st. unfold obs_register. destruct (obs_find (st_obs st) p); cbn.
+    - split; [apply Ir|split; [constructor|exact I]].
+    - split; [|split; [constructor|exact I]]. split; [apply frame_refl|]. unfold obs_under. cbn [st_obs]. intros H.
+      apply Forall_app. split; [exact H|repeat constructor; exact Hp]. Qed.
   Lemma conf_obs_stat p : under rootp p = true -> T (obs_stat p) (fun _ => True).
-  Proof. intros H st. unfold obs_stat. destruct (obs_find (st_obs st) p) as [[|]|]; cbn;
-    (split; [apply Iframe_same; reflexivity|split; [repeat constructor; try exact H|exact I]]). Qed.
+  Proof. intros H st. unfold obs_stat. destruct (obs_find (st_obs st) p) as [[|]|]; cbn.
+    - split; [apply Ir|split; [constructor|exact I]].
+    - split; [|split; [constructor; [left; exact H|constructor]|exact I]]. split; [apply frame_refl|]. unfold obs_under. cbn [st_obs]. apply obs_mark_under.
+    - split; [apply Ir|split; [constructor|exact I]]. Qed.
   Lemma conf_add_observation req : T (add_observation self req) (fun _ => True).
-  Proof. unfold add_observation. eapply (triple_bind _ _ It); [apply conf_lift|]. intros p _. apply conf_obs_register. Qed.
+  Proof. unfold add_observation. eapply (triple_bind _ _ It); [apply conf_lift|]. intros p [Hp _]. apply conf_obs_register. exact Hp. Qed.
 
   Lemma conf_stat_children p names : under rootp p = true -> Forall (fun n => n <> DOTDOT) names ->
     T (stat_children p names) (fun _ => True).
@@ -278,6 +301,7 @@ Section ServerConf.
       by (right; apply under_child; [apply under_abspath; exact Hpar|exact Htmp]).
     eapply (triple_bind _ _ It); [apply conf_open_dir_w; exact Hpar|]. intros [e|[]] _; [apply (triple_raise _ _ Ir)|].
     eapply (triple_bind _ _ It); [apply conf_create; [exact Hshown|exact Htmpu]|]. intros [e|[]] _; [apply (triple_raise _ _ Ir)|].
+    destruct (fs_disk_full self && nonempty_list (payload req)); [apply (triple_raise _ _ Ir)|].
     eapply (triple_bind _ _ It); [apply conf_rename; assumption|]. intros [e|[]] _.
     - eapply (triple_bind _ _ It); [apply conf_unlink; [exact Hshown|exact Htmpu]|]. intros _ _. apply (triple_raise _ _ Ir).
     - eapply (triple_bind _ _ It); [apply conf_stat; exact Hp|]. intros [e|n] _; [apply (triple_raise _ _ Ir)|apply (triple_ret _ _ Ir); exact I]. Qed.
@@ -298,8 +322,9 @@ Section ServerConf.
   Proof. unfold render. destruct (code req =? 1); [apply conf_render_get|]. destruct (code req =? 3); [apply conf_render_put|].
     destruct (code req =? 4); [apply conf_render_delete|apply (triple_raise _ _ Ir)]. Qed.
   Lemma conf_feed_and_take req : T (feed_and_take req) (fun _ => True).
-  Proof. intros st. pose proof (feed_and_take_spec req st) as H. destruct (feed_and_take req st) as [[st' effs] r].
-    destruct H as [H1 [-> _]]. split; [apply Iframe_same; exact H1|]. split; [constructor|destruct r; exact I]. Qed.
+  Proof. intros st. pose proof (feed_and_take_spec req st) as H. destruct (feed_and_take req st) as [[st' effs] r] eqn:E.
+    pose proof (feed_and_take_obs req st) as Ho. rewrite E in Ho. cbn [fst] in Ho.
+    destruct H as [H1 [-> _]]. split; [apply Iframe_same; [exact H1|exact Ho]|]. split; [constructor|destruct r; exact I]. Qed.
   Lemma conf_render_to_pipe req : T (render_to_pipe self req) (fun _ => True).
   Proof. unfold render_to_pipe.
     assert (T (if needs_blockwise_assembly req then (req' <-- feed_and_take req ;;; render self req') else render self req) (fun _ => True)) as Hn.
@@ -308,36 +333,60 @@ Section ServerConf.
     destruct (opt_observe req) as [[|?|?]|]; try exact Hn.
     eapply (triple_bind _ _ It); [apply conf_add_observation|]. intros _ _. apply conf_render. Qed.
 
-  (* every request: all effects under the root, nothing outside the root changes *)
+  (* every request: all effects under the root, nothing outside the root changes, observed paths stay under the root *)
   Lemma serve_confined req st :
-    match serve self req st with (st', effs, _) => Forall (conf rootp arootp) effs /\ frame (parts rootp) (st_fs st) (st_fs st') end.
+    match serve self req st with (st', effs, _) => Forall (conf rootp arootp) effs /\ Iframe rootp st st' end.
   Proof. unfold serve. pose proof (conf_render_to_pipe req st) as H.
     destruct (render_to_pipe self req st) as [[st' effs] [e|r]]; destruct H as [H1 [H2 _]]; split; assumption. Qed.
+  Lemma render_confined req st :
+    match render self req st with ((st', effs), _) => Forall (conf rootp arootp) effs /\ Iframe rootp st st' end.
+  Proof. pose proof (conf_render req st) as H. destruct (render self req st) as [[st' effs] r]. destruct H as [H1 [H2 _]]. split; assumption. Qed.
+End ServerConf.
 
-  Definition all_effects (o : list (list effect * response)) : list effect := flat_map fst o.
+Definition all_effects (o : list (list effect * response)) : list effect := flat_map fst o.
+Section Histories.
+  Variable self : fileserver.
+  Hypothesis Hroot : root_ok (fs_root self).
+  Hypothesis Htmp : fs_tmpname self <> DOTDOT.
+  Let rootp := load_parts (fs_root self).
+  Let arootp := abspath self rootp.
   Lemma fetch_all_confined fuel req szx : forall n st,
-    match fetch_all fuel self req szx n st with (st', o) => Forall (conf rootp arootp) (all_effects o) /\ frame (parts rootp) (st_fs st) (st_fs st') end.
+    match fetch_all fuel self req szx n st with (st', o) => Forall (conf rootp arootp) (all_effects o) /\ Iframe rootp st st' end.
   Proof. induction fuel as [|f IH]; intros n st; cbn [fetch_all];
-    pose proof (serve_confined (with_block2 req (Some (n, false, szx))) st) as H;
+    pose proof (serve_confined self Hroot Htmp (with_block2 req (Some (n, false, szx))) st) as H;
     destruct (serve self (with_block2 req (Some (n, false, szx))) st) as [[st1 effs] r]; destruct H as [H1 H2].
     - destruct (has_more r); cbn; rewrite app_nil_r; split; assumption.
     - destruct (has_more r); [|cbn; rewrite app_nil_r; split; assumption].
       specialize (IH (n + 1) st1). destruct (fetch_all f self req szx (n + 1) st1) as [st2 rs]. destruct IH as [H3 H4].
-      split; [cbn; apply Forall_app; split; assumption|eapply frame_trans; eassumption]. Qed.
-  Lemma step_confined st i :
-    match step self st i with (st', o) => Forall (conf rootp arootp) (all_effects o) /\ frame (parts rootp) (st_fs st) (st_fs st') end.
-  Proof. destruct i as [r|r szx]; cbn [step].
-    - pose proof (serve_confined r st) as H. destruct (serve self r st) as [[st1 effs] resp]. destruct H. cbn. rewrite app_nil_r. split; assumption.
-    - apply fetch_all_confined. Qed.
-  (* every history *)
-  Lemma run_confined items : forall st,
-    match run self st items with (st', os) => Forall (fun o => Forall (conf rootp arootp) (all_effects o)) os /\ frame (parts rootp) (st_fs st) (st_fs st') end.
-  Proof. induction items as [|i r IH]; intros st; cbn [run].
-    - split; [constructor|apply frame_refl].
-    - pose proof (step_confined st i) as H. destruct (step self st i) as [st1 o]. destruct H as [H1 H2].
-      specialize (IH st1). destruct (run self st1 r) as [st2 os]. destruct IH as [H3 H4].
-      split; [constructor; assumption|eapply frame_trans; eassumption]. Qed.
-End ServerConf.
+      split; [cbn; apply Forall_app; split; assumption|eapply Iframe_trans; eassumption]. Qed.
+  Lemma refresh_confined fs o : Forall (fun e : ppath * bool => under rootp (fst e) = true) o -> Forall (conf rootp arootp) (refresh_list fs o).
+  Proof. induction 1 as [|[p b] r Hp Hr IH]; cbn [refresh_list]; [constructor|]. destruct b; [|exact IH].
+    constructor; [left; exact Hp|]. destruct (fs_stat fs p); [constructor|exact IH]. Qed.
+  Lemma rerender_confined rs : forall st,
+    match rerender self rs st with (st', effs) => Forall (conf rootp arootp) effs /\ Iframe rootp st st' end.
+  Proof. induction rs as [|r rest IH]; intros st; cbn [rerender]; [split; [constructor|apply Iframe_refl]|].
+    pose proof (render_confined self Hroot Htmp r st) as H. destruct (render self r st) as [[st1 e1] x]. destruct H as [H1 H2].
+    specialize (IH st1). destruct (rerender self rest st1) as [st2 e2]. destruct IH as [H3 H4].
+    split; [apply Forall_app; split; assumption|eapply Iframe_trans; eassumption]. Qed.
+  Lemma step_confined st i : obs_under rootp st ->
+    match step self st i with (st', o) => Forall (conf rootp arootp) (all_effects o) /\ Iframe rootp st st' end.
+  Proof. intros Hobs. destruct i as [r|r szx|r|rs]; cbn [step].
+    - pose proof (serve_confined self Hroot Htmp r st) as H. destruct (serve self r st) as [[st1 effs] resp]. destruct H. cbn. rewrite app_nil_r. split; assumption.
+    - apply fetch_all_confined.
+    - pose proof (serve_confined (with_full self) Hroot Htmp r st) as H. destruct (serve (with_full self) r st) as [[st1 effs] resp]. destruct H. cbn. rewrite app_nil_r. split; assumption.
+    - pose proof (rerender_confined rs st) as H. destruct (rerender self rs st) as [st1 e1]. destruct H as [H1 H2].
+      cbn. rewrite app_nil_r. split; [apply Forall_app; split; [apply refresh_confined; exact Hobs|exact H1]|exact H2]. Qed.
+  (* every history, from every state whose observed paths are under the root (in particular the initial state) *)
+  Lemma run_confined items : forall st, obs_under rootp st ->
+    match run self st items with
+    | (st', os) => Forall (fun o => Forall (conf rootp arootp) (all_effects o)) os /\ frame (parts rootp) (st_fs st) (st_fs st') /\ obs_under rootp st'
+    end.
+  Proof. induction items as [|i r IH]; intros st Hobs; cbn [run].
+    - split; [constructor|split; [apply frame_refl|exact Hobs]].
+    - pose proof (step_confined st i Hobs) as H. destruct (step self st i) as [st1 o]. destruct H as [H1 [H2 H2o]].
+      specialize (IH st1 (H2o Hobs)). destruct (run self st1 r) as [st2 os]. destruct IH as [H3 [H4 H5]].
+      split; [constructor; assumption|split; [eapply frame_trans; eassumption|exact H5]]. Qed.
+End Histories.
 
 (* ------------------------------------------------------------------ reading requests and servers without write permission *)
 Section ServerRO.
@@ -450,11 +499,12 @@ Lemma lookup_aremove_same fs k : k <> [] -> lookup (aremove fs k) k = None.
 Proof. intros H. destruct k; [contradiction|]. apply alookup_aremove_same. Qed.
 
 Lemma store_file_errsafe self req p st :
+  fs_disk_full self = false ->          (* writing the body into the spool file succeeds; see store_file_failed_write below *)
   parts p <> [] ->
   lookup (st_fs st) (parts (child (parent p) (fs_tmpname self))) = None ->
   errsafe_at st (store_file self req p).
 Proof.
-  intros Hne Hfresh. unfold errsafe_at, store_file.
+  intros Hnofull Hne Hfresh. unfold errsafe_at, store_file. rewrite Hnofull. cbn [andb].
   set (tmp := child (parent p) (fs_tmpname self)) in *.
   assert (parts tmp <> []) as Htne by (unfold tmp, child; cbn [parts]; intros H; apply app_eq_nil in H as [_ H]; discriminate).
   assert (length (parts tmp) = length (parts p)) as Hlen by (unfold tmp, child, parent; cbn [parts]; apply length_removelast_snoc; exact Hne).
@@ -504,6 +554,7 @@ Proof. intros Hm Hf. unfold errsafe_at. rewrite out_bind. unfold out at 1. speci
 Section ErrSafe.
   Variable self : fileserver.
   Hypothesis Hroot : root_ok (fs_root self).
+  Hypothesis Hnofull : fs_disk_full self = false.
   (* the temporary name chosen by tempfile does not exist yet (tempfile retries until that is the case) *)
   Definition tmp_fresh (req : request) (fs : fsys) : Prop :=
     forall p, request_to_localpath self req = Ok p ->
@@ -517,7 +568,7 @@ Section ErrSafe.
     unfold errsafe_at. rewrite out_bind. unfold lift_path.
     destruct (request_to_localpath self req) as [p|e] eqn:E; [|rewrite out_raise; apply fs_equiv_refl].
     rewrite out_ret. change (errsafe_at st (put_preconditions self req (load_parts p) ;;; store_file self req (load_parts p))).
-    eapply errsafe_bind_ro; [apply ro_put_preconditions|]. intros _ st1 _ H1. apply store_file_errsafe.
+    eapply errsafe_bind_ro; [apply ro_put_preconditions|]. intros _ st1 _ H1. apply store_file_errsafe; [exact Hnofull| |].
     - destruct (request_to_localpath_confined _ _ _ Hroot E) as [Hp _]. rewrite Hp. cbn [parts].
       intros H. apply app_eq_nil in H as [_ H]. exact (filter_last_nonempty _ G1 G2 H).
     - rewrite H1. apply Hf. exact E. Qed.
@@ -591,7 +642,7 @@ Section Blockwise.
   (* a GET without Observe and ETag options for a path that designates a regular file with content c *)
   Hypothesis Hcode : code req = 1.
   Hypothesis Hobs : opt_observe req = None.
-  Hypothesis Hetags : opt_etags req = [].
+  Hypothesis Hetags : existsb is_cur (opt_etags req) = false.     (* no ETag option carries the file's current ETag (that would be answered 2.03 Valid without a body) *)
   Hypothesis Hwkc : parts_eqb (opt_uri_path req) WKC = false.
   Hypothesis Hnba : needs_blockwise_assembly req = false.        (* i.e. a non-empty Uri-Path that does not end in "" and is not .well-known/core *)
   Lemma Hlast : nonempty_list (opt_uri_path req) && last_is_empty (opt_uri_path req) = false.
@@ -601,7 +652,7 @@ Section Blockwise.
   Definition block_response (n szx : Z) : response :=
     {| rcode := 69;
        rbody := BFile (block_payload c n szx) (if (n =? 0) && negb (block_more c n szx) then None else Some (n, block_more c n szx, szx));
-       retag := fs_etag_enabled self && match (if (n =? 0) && negb (block_more c n szx) then None else Some (n, block_more c n szx, szx)) with Some _ => true | None => false end |}.
+       retag := fs_etag_enabled self && (nonempty_list (opt_etags req) || match (if (n =? 0) && negb (block_more c n szx) then None else Some (n, block_more c n szx, szx)) with Some _ => true | None => false end) |}.
 
   Lemma serve_block n szx st : fs_stat (st_fs st) (load_parts p) = inr (NFile c) ->
     exists st1 effs, serve self (with_block2 req (Some (n, false, szx))) st = (st1, effs, block_response n szx) /\ st_fs st1 = st_fs st.
@@ -614,11 +665,11 @@ Section Blockwise.
       unfold render_get. cbn [opt_uri_path with_block2]. rewrite Hwkc.
       assert (request_to_localpath self (with_block2 req (Some (n, false, szx))) = Ok p) as -> by exact Hpath.
       rewrite out_bind. unfold lift_path. rewrite out_ret, out_bind, out_stat, Hst. cbv beta iota.
-      cbn [opt_etags with_block2]. rewrite Hetags. cbn [existsb]. rewrite andb_false_r.
+      cbn [opt_etags with_block2]. rewrite Hetags, andb_false_r.
       rewrite out_bind. unfold render_get_file. cbn [opt_uri_path with_block2 opt_block2]. rewrite Hlast.
       rewrite out_bind, out_open_read. unfold fs_read. rewrite Hst. cbv beta iota.
       rewrite out_bind. destruct (out_obs_stat (load_parts p) st) as [st1 [Ho Hs]]. rewrite Ho. cbv beta iota.
-      rewrite out_ret, out_ret. exists st1. split; [|exact Hs]. unfold block_response, block_payload, block_more. rewrite !read_at_spec. cbn [rbody rcode nonempty_list orb]. reflexivity. }
+      rewrite out_ret, out_ret. exists st1. split; [|exact Hs]. unfold block_response, block_payload, block_more. rewrite !read_at_spec. cbn [rbody rcode]. reflexivity. }
     unfold serve. unfold out in H1. destruct (render_to_pipe self (with_block2 req (Some (n, false, szx))) st) as [[st' effs] r].
     cbn [fst snd] in H1. injection H1 as -> ->. exists st1, effs. split; [reflexivity|exact H2]. Qed.
 
@@ -667,3 +718,81 @@ Lemma feed_unknown req st num more szx :
   opt_block1 req = Some (num, more, szx) -> num <> 0 -> spool_find (st_spool st) (block_key req) = None ->
   feed_and_take req st = ((st, []), inl XIncomplete).
 Proof. intros H1 Hn Hs. unfold feed_and_take. rewrite H1, Hs. replace (num =? 0) with false by lia. reflexivity. Qed.
+
+(* ------------------------------------------------------------------ round 5: a failing write leaves the temporary file *)
+Lemma store_file_failed_write self req p st :
+  fs_disk_full self = true -> payload req <> [] -> has_nul (parent p) = false ->
+  resolve (st_fs st) (child (parent p) (fs_tmpname self)) = inr (parts (child (parent p) (fs_tmpname self))) ->
+  lookup (st_fs st) (parts (child (parent p) (fs_tmpname self))) = None ->
+  out (store_file self req p) st =
+    (with_fs st (aset (st_fs st) (parts (child (parent p) (fs_tmpname self))) (NFile [])), inl (XOSError ENOSPC)).
+Proof.
+  intros Hfull Hpl Hnul Hres Hfresh. unfold store_file. rewrite Hfull.
+  assert (nonempty_list (payload req) = true) as -> by (destruct (payload req); [contradiction|reflexivity]). cbn [andb].
+  rewrite out_bind, out_open_dir_w, Hnul. cbv beta iota.
+  rewrite out_bind, out_create. unfold fs_create. rewrite Hres, Hfresh. cbv beta iota. rewrite out_raise. reflexivity.
+Qed.
+
+(* ------------------------------------------------------------------ round 5: requests that would lead outside are answered with an error, without any call *)
+Definition quiet {A} (m : FM A) (Q : A -> Prop) : Prop :=
+  forall st, match m st with
+             | ((st', effs), r) => st_fs st' = st_fs st /\ effs = [] /\ match r with inr a => Q a | inl e => e <> XContinue end
+             end.
+Lemma quiet_ret {A} (a : A) (Q : A -> Prop) : Q a -> quiet (ret a) Q.
+Proof. intros H st. cbn. auto. Qed.
+Lemma quiet_raise {A} e (Q : A -> Prop) : e <> XContinue -> quiet (raise e) Q.
+Proof. intros H st. cbn. auto. Qed.
+Lemma quiet_bind {A B} (m : FM A) (f : A -> FM B) Q Q' : quiet m Q -> (forall a, Q a -> quiet (f a) Q') -> quiet (bindF m f) Q'.
+Proof. intros Hm Hf st. unfold bindF. specialize (Hm st). destruct (m st) as [[st1 e1] [x|a]].
+  - exact Hm.
+  - destruct Hm as [H1 [-> H3]]. specialize (Hf a H3 st1). destruct (f a st1) as [[st2 e2] r]. destruct Hf as [H4 [-> H6]].
+    split; [congruence|]. split; [reflexivity|exact H6]. Qed.
+
+Definition hostile (p : list Z) : Prop := ~ noslash p \/ p = DOT \/ p = DOTDOT.
+Definition errcode (r : response) : Prop := 128 <= rcode r.
+Section Escaping.
+  Variable self : fileserver.
+  Lemma rtl_hostile req p : In p (opt_uri_path req) -> hostile p -> forall Q, quiet (lift_path (request_to_localpath self req)) Q.
+  Proof. intros Hin Hh Q. rewrite (request_to_localpath_rejects self req p Hin Hh). apply quiet_raise. discriminate. Qed.
+  Lemma hostile_not_wkc path p : In p path -> hostile p -> parts_eqb path WKC = false.
+  Proof. intros Hin Hh. destruct (parts_eqb path WKC) eqn:E; [|reflexivity]. apply parts_eqb_eq in E. subst path. exfalso.
+    destruct Hin as [<-|[<-|[]]]; destruct Hh as [H|[H|H]]; try discriminate; apply H; repeat constructor; discriminate. Qed.
+  Lemma quiet_render req p : In p (opt_uri_path req) -> hostile p -> quiet (render self req) errcode.
+  Proof. intros Hin Hh. unfold render. destruct (code req =? 1).
+    - unfold render_get. rewrite (hostile_not_wkc _ _ Hin Hh). eapply quiet_bind; [apply (rtl_hostile req p Hin Hh (fun _ => False))|]. intros a [].
+    - destruct (code req =? 3).
+      + unfold render_put. destruct (negb (fs_write self)); [apply quiet_ret; unfold errcode; cbn; lia|].
+        destruct (_ || _); [apply quiet_ret; unfold errcode; cbn; lia|].
+        eapply quiet_bind; [apply (rtl_hostile req p Hin Hh (fun _ => False))|]. intros a [].
+      + destruct (code req =? 4); [|apply quiet_raise; discriminate].
+        unfold render_delete. destruct (negb (fs_write self)); [apply quiet_ret; unfold errcode; cbn; lia|].
+        destruct (_ || _); [apply quiet_ret; unfold errcode; cbn; lia|].
+        eapply quiet_bind; [apply (rtl_hostile req p Hin Hh (fun _ => False))|]. intros a []. Qed.
+  Lemma quiet_feed req : (forall n m s, opt_block1 req = Some (n, m, s) -> m = false) ->
+    quiet (feed_and_take req) (fun req' => opt_uri_path req' = opt_uri_path req).
+  Proof. intros Hm st. unfold feed_and_take. destruct (opt_block1 req) as [[[num more] szx]|] eqn:E; [|cbn; auto].
+    rewrite (Hm _ _ _ eq_refl). destruct (num =? 0); [cbn; auto|].
+    destruct (spool_find (st_spool st) (block_key req)) as [acc|]; [|cbn; repeat split; discriminate].
+    cbn [andb]. destruct (blk_start num szx =? blen acc); cbn; repeat split; try discriminate. Qed.
+  Lemma exn_code_error e : e <> XContinue -> 128 <= exn_code e.
+  Proof. destruct e; cbn; try lia. intros H. contradiction. Qed.
+  (* a request with a component that would lead outside the root ("..", ".", anything with a slash) is answered with an
+     error code whatever the method, the options and the state, and not a single file-system call is made for it *)
+  Lemma escaping_request_error req st p : In p (opt_uri_path req) -> hostile p ->
+    (forall n m s, opt_block1 req = Some (n, m, s) -> m = false) ->
+    match serve self req st with (st', effs, r) => 128 <= rcode r /\ effs = [] /\ st_fs st' = st_fs st end.
+  Proof.
+    intros Hin Hh Hb.
+    assert (quiet (render_to_pipe self req) errcode) as Hq.
+    { unfold render_to_pipe.
+      assert (quiet (if needs_blockwise_assembly req then (req' <-- feed_and_take req ;;; render self req') else render self req) errcode) as Hn.
+      { destruct (needs_blockwise_assembly req); [|apply (quiet_render req p Hin Hh)].
+        eapply quiet_bind; [apply quiet_feed; exact Hb|]. intros req' Hu. apply (quiet_render req' p); [rewrite Hu; exact Hin|exact Hh]. }
+      destruct (opt_observe req) as [[|?|?]|]; try exact Hn.
+      unfold add_observation. eapply quiet_bind with (Q := fun _ => False); [|intros a []].
+      eapply quiet_bind; [apply (rtl_hostile req p Hin Hh (fun _ => False))|]. intros a []. }
+    unfold serve. specialize (Hq st). destruct (render_to_pipe self req st) as [[st' effs] [e|r]]; destruct Hq as [H1 [H2 H3]].
+    - split; [cbn; apply exn_code_error; exact H3|]. split; assumption.
+    - split; [exact H3|]. split; assumption.
+  Qed.
+End Escaping.
